@@ -6,6 +6,10 @@
 (*   <<"f", n, d>>     float as the exact rational n/d in lowest terms, d a power of two  *)
 (*                     (every float64 is such a dyadic rational; + - * are closed on them *)
 (*                     and IEEE division is exact whenever the quotient is dyadic again)  *)
+(*   <<"I", b, o>>     an int64 beyond the model's exact integers, as base + small offset: b in  *)
+(*                     "p53" "n53" "p62" "n62" "p63" "n63" = +-2^53, +-2^62, +-2^63, so that       *)
+(*                     MaxInt64 = <<"I","p63",-1>>, MinInt64 = <<"I","n63",0>>; <<"G", b, o>> is   *)
+(*                     the float64 with exactly that value                                        *)
 (*   <<"F", k>>        the other float64 values: k = "nan", "+inf", "-inf", "-0" (IEEE 754  *)
 (*                     arithmetic, comparison and the math built-ins are pinned on them)  *)
 (*   <<"s", <<c..>>>>  string as its sequence of byte values                              *)
@@ -30,7 +34,7 @@ EXTENDS Integers, Sequences, FiniteSets, TLC
 Err == <<"E">>
 IsErr(v) == v[1] = "E"
 IsAny(v) == v[1] \in {"?", "!"}
-Tag(v) == IF IsAny(v) THEN v[2] ELSE IF v[1] = "F" THEN "f" ELSE v[1]
+Tag(v) == IF IsAny(v) THEN v[2] ELSE IF v[1] \in {"F", "G"} THEN "f" ELSE IF v[1] = "I" THEN "i" ELSE v[1]
 AnyOf(t) == <<"?", t>>
 NonErr(t) == <<"!", t>>
 MkI(n) == <<"i", n>>
@@ -83,7 +87,7 @@ MkZ(neg) == IF neg THEN NZero ELSE PZero
 MkInf(neg) == IF neg THEN NInf ELSE PInf
 Fin(v) == IF v[1] = "i" THEN <<"f", v[2], 1>> ELSE IF IsSp(v) THEN PZero ELSE v    \* the rational of a finite value (-0 is 0)
 ENeg(v) == IF IsNaN(v) THEN NaN ELSE IF IsInf(v) THEN MkInf(~SBit(v)) ELSE IF IsZero(v) THEN MkZ(~SBit(v)) ELSE FNeg(v)
-ESmall(a) == IsSp(a) \/ (Abs(a[2]) <= 23170 /\ a[3] <= 23170)
+ESmall(a) == IsSp(a) \/ (a[1] = "f" /\ Abs(a[2]) <= 23170 /\ a[3] <= 23170)
 (* -1, 0, 1 for two values that are not NaN (ints, floats, infinities; the zeros are equal) *)
 ECmp(a, b) ==
     IF IsInf(a) \/ IsInf(b)
@@ -111,9 +115,54 @@ EDiv(a, b) ==
     ELSE IF IsZero(a) THEN MkZ(neg)
     ELSE LET x == Fin(a)  y == Fin(b)  q == MkF(x[2] * y[3], x[3] * y[2]) IN
          IF IsPow2(q[3]) THEN q ELSE NonErr("f")       \* an inexact quotient: some float (a division of floats is never an error)
+(* ---------------- int64 and float64 values around +-2^53, +-2^62, +-2^63 ---------------- *)
+IsBig(v) == v[1] \in {"I", "G"}
+BaseRank == [n63 |-> -3, n62 |-> -2, n53 |-> -1, p53 |-> 1, p62 |-> 2, p63 |-> 3]
+Mirror == [n63 |-> "p63", n62 |-> "p62", n53 |-> "p53", p53 |-> "n53", p62 |-> "n62", p63 |-> "n63"]
+(* int64 wraps around: 2^63 + o is -2^63 + o, -2^63 - o is 2^63 - o; an offset beyond the neighbourhood is some int *)
+BigI(b, o) == IF Abs(o) > 64 THEN NonErr("i")
+              ELSE IF b = "p63" /\ o >= 0 THEN <<"I", "n63", o>> ELSE IF b = "n63" /\ o < 0 THEN <<"I", "p63", o>> ELSE <<"I", b, o>>
+NegI(v) == IF v[1] = "I" THEN BigI(Mirror[v[2]], -v[3]) ELSE MkI(-v[2])
+(* float64(int64): exact below 2^53, to the nearest even multiple of 2 up to 2^54 (ties to even), to 2^62 resp. 2^63 in their neighbourhood *)
+HalfEven(o) == LET k == o \div 2 IN IF o % 2 = 0 THEN k ELSE IF k % 2 = 0 THEN k ELSE k + 1
+IntToFloat(v) ==
+    IF v[1] # "I" THEN <<"f", v[2], 1>>
+    ELSE CASE v[2] = "p53" -> <<"G", "p53", IF v[3] <= 0 THEN v[3] ELSE 2 * HalfEven(v[3])>>
+           [] v[2] = "n53" -> <<"G", "n53", IF v[3] >= 0 THEN v[3] ELSE -2 * HalfEven(-v[3])>>
+           [] OTHER -> <<"G", v[2], 0>>
+Rank(v) == IF IsBig(v) THEN BaseRank[v[2]] ELSE 0
+(* -1, 0, 1 for two numbers that are not NaN; an int compared with a float is converted to float64 first (as the evaluator does), *)
+(* two ints are compared as integers                                                                                             *)
+NumCmpAll(a, b) ==
+    LET x == IF Tag(a) = "i" /\ Tag(b) = "f" THEN IntToFloat(a) ELSE a
+        y == IF Tag(b) = "i" /\ Tag(a) = "f" THEN IntToFloat(b) ELSE b
+    IN IF IsInf(x) \/ IsInf(y) \/ (~IsBig(x) /\ ~IsBig(y)) THEN ECmp(x, y)
+       ELSE IF Rank(x) # Rank(y) THEN (IF Rank(x) < Rank(y) THEN -1 ELSE 1)
+       ELSE IF x[3] < y[3] THEN -1 ELSE IF x[3] > y[3] THEN 1 ELSE 0
+(* int64 arithmetic with an operand beyond the exact integers: decided in the neighbourhood of the bases, else some int (it wraps, never an error) *)
+BigArith(op, a, b) ==
+    LET sa == ~IsBig(a)  sb == ~IsBig(b) IN
+    CASE op = "+" -> IF sb THEN BigI(a[2], a[3] + b[2]) ELSE IF sa THEN BigI(b[2], b[3] + a[2])
+                     ELSE IF Rank(a) = -Rank(b) THEN MkI(a[3] + b[3]) ELSE NonErr("i")
+      [] op = "-" -> IF sb THEN BigI(a[2], a[3] - b[2])
+                     ELSE LET nb == NegI(b) IN
+                          IF IsAny(nb) THEN NonErr("i")
+                          ELSE IF sa THEN BigI(nb[2], nb[3] + a[2])
+                          ELSE IF a[2] = b[2] THEN MkI(a[3] - b[3]) ELSE NonErr("i")
+      [] op = "*" -> IF sb /\ b[2] \in {0, 1, -1} THEN (IF b[2] = 0 THEN MkI(0) ELSE IF b[2] = 1 THEN a ELSE NegI(a))
+                     ELSE IF sa /\ a[2] \in {0, 1, -1} THEN (IF a[2] = 0 THEN MkI(0) ELSE IF a[2] = 1 THEN b ELSE NegI(b))
+                     ELSE NonErr("i")
+      [] op = "/" -> IF sb THEN (IF b[2] = 0 THEN Err ELSE IF b[2] = 1 THEN a ELSE IF b[2] = -1 THEN NegI(a) ELSE NonErr("i"))
+                     ELSE IF sa THEN MkI(0)
+                     ELSE IF a[2] = b[2] THEN MkI(IF (BaseRank[a[2]] > 0) = (a[3] >= b[3]) \/ a[3] = b[3] THEN 1 ELSE 0)
+                     ELSE NonErr("i")
+      [] op = "%" -> IF sb THEN (IF b[2] = 0 THEN Err ELSE IF b[2] \in {1, -1} THEN MkI(0) ELSE NonErr("i"))
+                     ELSE IF sa THEN a
+                     ELSE IF a[2] = b[2] THEN (IF (BaseRank[a[2]] > 0) = (a[3] >= b[3]) \/ a[3] = b[3] THEN MkI(a[3] - b[3]) ELSE a)
+                     ELSE NonErr("i")
 ECmpHolds(op, a, b) ==       \* every comparison with NaN is false, except != which is true
     IF IsNaN(a) \/ IsNaN(b) THEN op = "!="
-    ELSE LET c == ECmp(a, b) IN
+    ELSE LET c == NumCmpAll(a, b) IN
          CASE op = "==" -> c = 0 [] op = "!=" -> c # 0 [] op = "<" -> c < 0
            [] op = "<=" -> c <= 0 [] op = ">" -> c > 0 [] op = ">=" -> c >= 0
 (* math.Floor/Ceil/Trunc/Abs/Sqrt/Log/Min/Max/Mod *)
@@ -178,6 +227,29 @@ CountFrom(s, p, i) == IF i + Len(p) - 1 > Len(s) THEN 0
                       ELSE IF OccursAt(s, p, i) THEN 1 + CountFrom(s, p, i + Len(p)) ELSE CountFrom(s, p, i + 1)
 StrCount(s, p) == IF p = <<>> THEN Len(s) + 1 ELSE CountFrom(s, p, 1)
 Spaces == <<32, 9, 10, 11, 12, 13>>
+(* Strings are BYTE sequences: length, substring bounds, indexes, prefixes/suffixes, counting and comparison are in bytes   *)
+(* whatever the encoding (a 2-byte rune has length 2, invalid UTF-8 is just bytes).  The functions that work on runes        *)
+(* (character sets of strTrim*/str*Any, upper/lower case, Unicode blanks, the empty pattern of strCount/strReplace) are       *)
+(* decided here only on ASCII, where runes and bytes coincide: with a non-ASCII byte involved they give SOME string/int.      *)
+Ascii(s) == \A i \in DOMAIN s : s[i] < 128
+RECURSIVE ReplN(_, _, _, _), ReplEmpty(_, _, _, _)
+ReplN(s, old, new, n) ==        \* the first n non-overlapping occurrences of a non-empty old, from the left
+    IF n = 0 \/ Len(s) < Len(old) THEN s
+    ELSE IF HasPrefix(s, old) THEN new \o ReplN(SubSeq(s, Len(old) + 1, Len(s)), old, new, n - 1)
+    ELSE <<s[1]>> \o ReplN(Tail(s), old, new, n)
+ReplEmpty(s, new, n, i) ==      \* an empty old matches before every byte and at the end (ASCII)
+    IF n = 0 THEN SubSeq(s, i, Len(s))
+    ELSE IF i > Len(s) THEN new
+    ELSE new \o <<s[i]>> \o ReplEmpty(s, new, n - 1, i + 1)
+RECURSIVE ReplByte(_, _, _)
+ReplByte(s, c, new) == IF s = <<>> THEN <<>> ELSE (IF s[1] = c THEN new ELSE <<s[1]>>) \o ReplByte(Tail(s), c, new)
+(* regexp.ReplaceAllString for the named patterns (the replacement must not hold a $ expansion) *)
+RegexReplaceAll(name, s, new) ==
+    CASE name = "a" -> ReplByte(s, 97, new)
+      [] name = "1" -> ReplByte(s, 49, new)
+      [] name = "^a" -> IF HasPrefix(s, <<97>>) THEN new \o Tail(s) ELSE s
+      [] name = "b$" -> IF HasSuffix(s, <<98>>) THEN SubSeq(s, 1, Len(s) - 1) \o new ELSE s
+      [] name = "^$" -> IF s = <<>> THEN new ELSE s
 RECURSIVE Digits(_)
 Digits(n) == IF n < 10 THEN <<48 + n>> ELSE Digits(n \div 10) \o <<48 + (n % 10)>>
 IntToStr(n) == IF n < 0 THEN <<45>> \o Digits(-n) ELSE Digits(n)
@@ -388,6 +460,9 @@ Bin(op, a, b) ==
         rt == BinType(op, ta, tb)
     IN IF rt = "inv" THEN Err
        ELSE IF IsAny(a) \/ IsAny(b) THEN AnyOf(rt)
+       ELSE IF (IsBig(a) \/ IsBig(b)) /\ op \in Arith
+            THEN (IF ta = "i" /\ tb = "i" THEN BigArith(op, a, b)
+                  ELSE IF rt = "d" /\ op = "/" /\ tb = "i" /\ ~IsBig(b) /\ b[2] = 0 THEN Err ELSE NonErr(rt))
        ELSE IF ta = "f" /\ tb = "f" /\ op \in Arith /\ ~(ESmall(a) /\ ESmall(b)) THEN NonErr("f")     \* beyond the model's exact rationals
        ELSE CASE op \in Logic -> MkB(IF op = "AND" THEN a[2] /\ b[2] ELSE a[2] \/ b[2])
               [] op \in {"=~", "!~"} -> MkB(RegexMatch(b[2], a[2]) = (op = "=~"))
@@ -427,6 +502,8 @@ Un(op, v) ==
     ELSE CASE Tag(v) \notin {"i", "f", "d"} -> Err
            [] IsAny(v) -> v
            [] v[1] = "i" -> MkI(-v[2])
+           [] v[1] = "I" -> NegI(v)
+           [] v[1] = "G" -> <<"G", Mirror[v[2]], -v[3]>>
            [] Tag(v) = "f" -> ENeg(v)
            [] v[1] = "d" -> MkD(-v[2])
 
@@ -439,7 +516,8 @@ StatefulFuncs == {"count", "spread", "sigma"}
 
 ToInt(v) ==
     CASE IsAny(v) -> AnyOf("i")
-      [] v[1] = "i" -> v
+      [] v[1] \in {"i", "I"} -> v
+      [] v[1] = "G" -> IF v[2] = "p63" THEN NonErr("i") ELSE <<"I", v[2], v[3]>>       \* 2^63 is beyond int64: not defined by Go
       [] v[1] = "F" -> IF IsZero(v) THEN MkI(0) ELSE NonErr("i")     \* int64(NaN), int64(+-Inf) are not defined by Go: some int
       [] v[1] = "f" -> MkI(FTrunc(v))
       [] v[1] = "s" -> ParseIntDec(v[2])
@@ -448,8 +526,8 @@ ToInt(v) ==
       [] OTHER -> Err
 ToFloat(v) ==
     CASE IsAny(v) -> AnyOf("f")
-      [] v[1] = "i" -> <<"f", v[2], 1>>
-      [] v[1] \in {"f", "F"} -> v
+      [] v[1] \in {"i", "I"} -> IntToFloat(v)
+      [] v[1] \in {"f", "F", "G"} -> v
       [] v[1] = "s" -> ParseFloatStr(v[2])
       [] v[1] = "b" -> <<"f", IF v[2] THEN 1 ELSE 0, 1>>
       [] OTHER -> Err
@@ -458,6 +536,7 @@ ToBool(v) ==
       [] v[1] = "b" -> v
       [] v[1] = "s" -> IF v[2] \in StrTrue THEN True ELSE IF v[2] \in StrFalse THEN False ELSE Err
       [] v[1] = "i" -> IF v[2] = 1 THEN True ELSE IF v[2] = 0 THEN False ELSE Err
+      [] v[1] \in {"I", "G"} -> Err
       [] v[1] = "F" -> IF IsZero(v) THEN False ELSE Err                \* NaN and the infinities are neither 0 nor 1
       [] v[1] = "f" -> IF v = <<"f", 1, 1>> THEN True ELSE IF v[2] = 0 THEN False ELSE Err
       [] OTHER -> Err
@@ -465,6 +544,7 @@ ToStr(v) ==
     CASE IsAny(v) -> AnyOf("s")
       [] v[1] = "s" -> v
       [] v[1] = "i" -> MkS(IntToStr(v[2]))
+      [] v[1] \in {"I", "G"} -> NonErr("s")                             \* (the decimal digits are not modelled)
       [] v[1] = "F" -> MkS(CASE v[2] = "nan" -> <<78, 97, 78>> [] v[2] = "+inf" -> <<43, 73, 110, 102>>
                              [] v[2] = "-inf" -> <<45, 73, 110, 102>> [] v[2] = "-0" -> <<45, 48>>)
       [] v[1] = "f" -> FloatToStr(v)
@@ -492,6 +572,7 @@ Pure(name, a) ==
             ELSE IF Tag(a[1]) = "s" THEN ParseDurStr(a[1][2])                          \* a duration literal, the unit is not used
             ELSE IF Tag(a[1]) \notin {"i", "f"} \/ Len(a) # 2 \/ Tag(a[2]) # "d" THEN Err
             ELSE IF IsAny(a[2]) THEN AnyOf("d")
+            ELSE IF IsBig(a[1]) THEN NonErr("d")
             ELSE IF Tag(a[1]) = "i" THEN (IF MulFits(a[1][2], a[2][2]) THEN MkD(a[1][2] * a[2][2]) ELSE NonErr("d"))
             ELSE DurTimes(a[2][2], a[1])
       [] name \in {"abs", "floor", "ceil", "trunc", "sqrt", "log"} ->
@@ -516,6 +597,7 @@ Pure(name, a) ==
       [] name = "strSubstring" ->      \* str[start:stop]
             IF ~AllTags(a, <<"s", "i", "i">>) THEN Err
             ELSE IF SomeAny(a) THEN AnyOf("s")
+            ELSE IF IsBig(a[2]) \/ IsBig(a[3]) THEN Err                    \* (no string is that long)
             ELSE IF 0 <= a[2][2] /\ a[2][2] <= a[3][2] /\ a[3][2] <= Len(a[1][2])
                  THEN MkS(SubSeq(a[1][2], a[2][2] + 1, a[3][2])) ELSE Err
       [] name \in {"strContains", "strHasPrefix", "strHasSuffix"} ->
@@ -531,6 +613,7 @@ Pure(name, a) ==
       [] name \in {"strToUpper", "strToLower"} ->
             IF ~AllTags(a, <<"s">>) THEN Err
             ELSE IF SomeAny(a) THEN AnyOf("s")
+            ELSE IF ~Ascii(a[1][2]) THEN NonErr("s")                     \* Unicode case mapping is not modelled
             ELSE MkS(IF name = "strToUpper" THEN Upper(a[1][2]) ELSE Lower(a[1][2]))
       [] name \in {"strTrimPrefix", "strTrimSuffix"} ->
             IF ~AllTags(a, <<"s", "s">>) THEN Err
@@ -541,21 +624,37 @@ Pure(name, a) ==
       [] name \in {"strCount", "strIndexAny", "strLastIndexAny"} ->
             IF ~AllTags(a, <<"s", "s">>) THEN Err
             ELSE IF SomeAny(a) THEN AnyOf("i")
+            ELSE IF (name = "strCount" /\ a[2][2] = <<>> /\ ~Ascii(a[1][2])) \/ (name # "strCount" /\ ~Ascii(a[2][2])) THEN NonErr("i")
             ELSE LET s == a[1][2]  p == a[2][2]  ps == AnyPositions(s, p) IN
                  MkI(CASE name = "strCount" -> StrCount(s, p)
                        [] name = "strIndexAny" -> IF ps = {} THEN -1 ELSE Min(ps) - 1
                        [] name = "strLastIndexAny" -> IF ps = {} THEN -1 ELSE Max(ps) - 1)
       [] name = "strContainsAny" ->
             IF ~AllTags(a, <<"s", "s">>) THEN Err
-            ELSE IF SomeAny(a) THEN AnyOf("b") ELSE MkB(AnyPositions(a[1][2], a[2][2]) # {})
+            ELSE IF SomeAny(a) THEN AnyOf("b") ELSE IF ~Ascii(a[2][2]) THEN NonErr("b") ELSE MkB(AnyPositions(a[1][2], a[2][2]) # {})
       [] name \in {"strTrim", "strTrimLeft", "strTrimRight"} ->
             IF ~AllTags(a, <<"s", "s">>) THEN Err
             ELSE IF SomeAny(a) THEN AnyOf("s")
+            ELSE IF ~Ascii(a[2][2]) THEN NonErr("s")                     \* a non-ASCII character set is a set of runes
             ELSE MkS(CASE name = "strTrim" -> TrimR(TrimL(a[1][2], a[2][2]), a[2][2])
                        [] name = "strTrimLeft" -> TrimL(a[1][2], a[2][2])
                        [] name = "strTrimRight" -> TrimR(a[1][2], a[2][2]))
       [] name = "strTrimSpace" ->
-            IF ~AllTags(a, <<"s">>) THEN Err ELSE IF SomeAny(a) THEN AnyOf("s") ELSE MkS(TrimR(TrimL(a[1][2], Spaces), Spaces))
+            IF ~AllTags(a, <<"s">>) THEN Err ELSE IF SomeAny(a) THEN AnyOf("s")
+            ELSE LET t == TrimR(TrimL(a[1][2], Spaces), Spaces) IN
+                 IF t # <<>> /\ (t[1] >= 128 \/ t[Len(t)] >= 128) THEN NonErr("s") ELSE MkS(t)      \* (there are non-ASCII blanks)
+      [] name = "strReplace" ->        \* strings.Replace(s, old, new, n): n < 0 = all
+            IF ~AllTags(a, <<"s", "s", "s", "i">>) THEN Err
+            ELSE IF SomeAny(a) THEN AnyOf("s")
+            ELSE LET s == a[1][2]  old == a[2][2]  new == a[3][2]
+                     n == IF IsBig(a[4]) \/ a[4][2] < 0 \/ a[4][2] > Len(s) + 1 THEN Len(s) + 1 ELSE a[4][2]
+                 IN IF old = <<>> /\ ~Ascii(s) THEN NonErr("s")
+                    ELSE IF old = <<>> THEN MkS(ReplEmpty(s, new, n, 1)) ELSE MkS(ReplN(s, old, new, n))
+      [] name = "regexReplace" ->
+            IF ~AllTags(a, <<"r", "s", "s">>) THEN Err
+            ELSE IF SomeAny(a) THEN AnyOf("s")
+            ELSE IF \E i \in DOMAIN a[3][2] : a[3][2][i] = 36 THEN NonErr("s")
+            ELSE MkS(RegexReplaceAll(a[1][2], a[2][2], a[3][2]))
       [] name \in {"day", "month", "year", "weekday"} ->      \* model time 0 is Monday 2000-01-03 00:00 UTC
             IF ~AllTags(a, <<"t">>) THEN Err
             ELSE IF SomeAny(a) \/ a[1][2] \div 1440 > 27 THEN AnyOf("i")
@@ -584,6 +683,7 @@ Call(name, a, fs) ==
             IF ~AllTags(a, <<"f">>) THEN <<Err, fs>>
             ELSE LET h == Append(fs.sg, a[1]) IN
                  <<IF \E i \in DOMAIN h : IsAny(h[i]) THEN AnyOf("f")
+                   ELSE IF \E i \in DOMAIN h : h[i][1] = "G" THEN NonErr("f")
                    ELSE IF Len(h) = 1 THEN PZero
                    ELSE IF \E i \in DOMAIN h : IsNaN(h[i]) \/ IsInf(h[i]) THEN NaN
                    ELSE IF \A i \in DOMAIN h : ECmp(h[i], h[1]) = 0 THEN PZero
@@ -595,7 +695,7 @@ Call(name, a, fs) ==
 (* of n has, "inv" when that depends on the scope.                                            *)
 RECURSIVE ConstType(_)
 ConstType(n) ==
-    CASE n[1] = "L" -> n[2][1]
+    CASE n[1] = "L" -> Tag(n[2])
       [] n[1] = "U" -> IF n[2] = "!" THEN "b" ELSE ConstType(n[3])
       [] n[1] = "X" -> ConstType(n[2])
       [] n[1] = "B" -> IF n[2] \in Comp \cup Logic THEN "b"
@@ -634,6 +734,8 @@ SigType(name, ts) ==
       [] name = "strContainsAny" -> IF ts = <<"s", "s">> THEN "b" ELSE "err"
       [] name \in {"strTrim", "strTrimLeft", "strTrimRight"} -> IF ts = <<"s", "s">> THEN "s" ELSE "err"
       [] name = "strTrimSpace" -> IF ts = <<"s">> THEN "s" ELSE "err"
+      [] name = "strReplace" -> IF ts = <<"s", "s", "s", "i">> THEN "s" ELSE "err"
+      [] name = "regexReplace" -> IF ts = <<"r", "s", "s">> THEN "s" ELSE "err"
       [] name = "mod" -> IF ts = <<"f", "f">> THEN "f" ELSE "err"
       [] name \in {"day", "month", "year", "weekday"} -> IF ts = <<"t">> THEN "i" ELSE "err"
       [] name \in {"strToUpper", "strToLower"} -> IF ts = <<"s">> THEN "s" ELSE "err"
@@ -649,7 +751,7 @@ SigType(name, ts) ==
 (* are boolean whatever their operands are (those are checked when the node is evaluated).      *)
 RECURSIVE NType(_, _)
 NType(n, sc) ==
-    CASE n[1] = "L" -> n[2][1]
+    CASE n[1] = "L" -> Tag(n[2])
       [] n[1] = "R" -> IF n[2] \in DOMAIN sc THEN Tag(sc[n[2]]) ELSE "err"
       [] n[1] = "X" -> IF ConstType(n) # "inv" THEN ConstType(n) ELSE NType(n[2], sc)
       [] n[1] = "U" -> IF ConstType(n) # "inv" THEN ConstType(n) ELSE NType(n[3], sc)
